@@ -7,7 +7,8 @@
 //          seed <n>
 //          cold                                (optional: cold-start round, see main)
 //          thread <op> ; <op> ; ...            (one line per thread)
-// operands: P<i> private slot of the thread, S<i> shared geometry (read only)
+//          fresh <mode>:<hexwkb> ...           shared geometries nobody has queried yet (see main)
+// operands: P<i> private slot of the thread, S<i> shared geometry (read only), F<i> fresh shared geometry (read only)
 // stdout:  T<i> <result> <result> ...          one token per op (wkb / free / ctx: none; rwkt / rjson: two)
 #include <geos_c.h>
 #include <atomic>
@@ -25,6 +26,7 @@
 #include <vector>
 
 static std::vector<GEOSGeometry*> shared;
+static std::vector<GEOSGeometry*> fresh;    // shared immutable geometries that NO call has touched since they were read / cloned / constructed
 static GEOSSTRtree* shared_tree = nullptr;
 static const GEOSPreparedGeometry* shared_prep = nullptr;
 static std::vector<std::vector<std::string>> programs;
@@ -46,6 +48,7 @@ struct Th {
     const GEOSGeometry* get(const std::string& o) {
         size_t i = (size_t)atoi(o.c_str() + 1);
         if (o[0] == 'S') return i < shared.size() ? shared[i] : nullptr;
+        if (o[0] == 'F') return i < fresh.size() ? fresh[i] : nullptr;
         return i < slot.size() ? slot[i] : nullptr;
     }
     void put(const std::string& o, GEOSGeometry* g) {
@@ -82,7 +85,7 @@ static void run_op(Th& t, const std::string& opline) {
         GEOSGeoJSONReader* jr = GEOSGeoJSONReader_create_r(h); GEOSGeometry* r = w ? GEOSGeoJSONReader_readGeometry_r(h, jr, w) : nullptr; GEOSGeoJSONReader_destroy_r(h, jr);
         t.emit(w ? hx(fnv(w)) : "NULL"); if (w) GEOSFree_r(h, w); t.put(a, r); t.emit(t.gh(r)); return; }
     // ---- unary -> value
-    static const char* UV[] = {"area", "length", "isvalid", "issimple", "isempty", "npts", "wkbhash", "ngeoms", "validreason", "minclear", nullptr};
+    static const char* UV[] = {"area", "length", "isvalid", "issimple", "isempty", "npts", "wkbhash", "ngeoms", "validreason", "minclear", "extent", "xmin", "cdim", "hasz", nullptr};
     for (int i = 0; UV[i]; i++) if (op == UV[i]) {
         ss >> a; const GEOSGeometry* g = t.get(a); if (!g) { t.emit("NULL"); return; }
         double v = 0;
@@ -95,6 +98,10 @@ static void run_op(Th& t, const std::string& opline) {
         else if (op == "ngeoms") t.emit(std::to_string(GEOSGetNumGeometries_r(h, g)));
         else if (op == "wkbhash") t.emit(t.gh(g));
         else if (op == "validreason") { char* r = GEOSisValidReason_r(h, g); t.emit(r ? hx(fnv(r)) : "NULL"); if (r) GEOSFree_r(h, r); }
+        else if (op == "extent") { double x0 = 0, y0 = 0, x1 = 0, y1 = 0; int ok = GEOSGeom_getExtent_r(h, g, &x0, &y0, &x1, &y1); t.emit(ok ? dbl(x0) + dbl(y0) + dbl(x1) + dbl(y1) : "ERR"); }
+        else if (op == "cdim") t.emit(std::to_string(GEOSGeom_getCoordinateDimension_r(h, g)));
+        else if (op == "hasz") t.emit(std::to_string((int)GEOSHasZ_r(h, g)));
+        else if (op == "xmin") { int ok = GEOSGeom_getXMin_r(h, g, &v); t.emit(ok ? dbl(v) : "ERR"); }
         else if (op == "minclear") { int rc = GEOSMinimumClearance_r(h, g, &v); t.emit(rc == 0 ? dbl(v) : "ERR"); }
         return;
     }
@@ -182,6 +189,7 @@ static void run_op(Th& t, const std::string& opline) {
         GEOSSTRtree* tr = GEOSSTRtree_create_r(h, 4); long items = 0;
         for (auto* g : t.slot) if (g) { GEOSSTRtree_insert_r(h, tr, g, (void*)g); items++; }
         for (auto* g : shared) { GEOSSTRtree_insert_r(h, tr, g, (void*)g); items++; }
+        for (auto* g : fresh) { GEOSSTRtree_insert_r(h, tr, g, (void*)g); items++; }
         long hits = 0; GEOSSTRtree_query_r(h, tr, q, qcb, &hits); GEOSSTRtree_destroy_r(h, tr);
         t.emit(std::to_string(items) + "/" + std::to_string(hits)); return;
     }
@@ -214,6 +222,29 @@ int main(int argc, char** argv) {
     for (const std::string& ln : lines) {
         std::stringstream ss(ln); std::string tag; ss >> tag;
         if (tag == "shared" && !cold) { std::string hx; while (ss >> hx) { GEOSGeometry* g = GEOSGeomFromHEX_buf_r(h0, (const unsigned char*)hx.data(), hx.size()); if (g) shared.push_back(g); } }
+        else if (tag == "fresh" && !cold) {
+            // <mode>:<hex>  b = as read from WKB, t = as read from WKT, c = clone, k = built through the constructor API (line strings),
+            // h / u / e = result of convex hull / buffer / envelope
+            // the geometry handed to the threads is never passed to any other call before they start
+            std::string it;
+            while (ss >> it) {
+                char mode = it[0]; std::string hx = it.substr(2); GEOSGeometry* g = nullptr;
+                if (mode == 'b') g = GEOSGeomFromHEX_buf_r(h0, (const unsigned char*)hx.data(), hx.size());
+                else {
+                    GEOSGeometry* tmp = GEOSGeomFromHEX_buf_r(h0, (const unsigned char*)hx.data(), hx.size());
+                    if (tmp && mode == 't') { GEOSWKTWriter* w = GEOSWKTWriter_create_r(h0); GEOSWKTWriter_setRoundingPrecision_r(h0, w, 17); char* txt = GEOSWKTWriter_write_r(h0, w, tmp);
+                        g = txt ? GEOSGeomFromWKT_r(h0, txt) : nullptr; if (txt) GEOSFree_r(h0, txt); GEOSWKTWriter_destroy_r(h0, w); }
+                    else if (tmp && mode == 'k' && GEOSGeomTypeId_r(h0, tmp) == GEOS_LINESTRING) {
+                        const GEOSCoordSequence* cs = GEOSGeom_getCoordSeq_r(h0, tmp); GEOSCoordSequence* c2 = cs ? GEOSCoordSeq_clone_r(h0, cs) : nullptr; g = c2 ? GEOSGeom_createLineString_r(h0, c2) : nullptr; }
+                    else if (tmp && mode == 'h') g = GEOSConvexHull_r(h0, tmp);          // a geometry PRODUCED by an operation, handed over as it came out
+                    else if (tmp && mode == 'u') g = GEOSBuffer_r(h0, tmp, 0.5, 3);
+                    else if (tmp && mode == 'e') g = GEOSEnvelope_r(h0, tmp);
+                    else if (tmp) g = GEOSGeom_clone_r(h0, tmp);
+                    if (tmp) GEOSGeom_destroy_r(h0, tmp);
+                }
+                if (g) fresh.push_back(g);
+            }
+        }
         else if (tag == "seed") ss >> seed;
         else if (tag == "thread") { std::vector<std::string> ops; std::string rest; std::getline(ss, rest); std::stringstream rs(rest); std::string op;
             while (std::getline(rs, op, ';')) { size_t a = op.find_first_not_of(' '); if (a != std::string::npos) ops.push_back(op.substr(a)); } programs.push_back(ops); }
@@ -253,6 +284,7 @@ int main(int argc, char** argv) {
     if (shared_prep) GEOSPreparedGeom_destroy_r(h0, shared_prep);
     if (shared_tree) GEOSSTRtree_destroy_r(h0, shared_tree);
     for (auto* g : shared) GEOSGeom_destroy_r(h0, g);
+    for (auto* g : fresh) GEOSGeom_destroy_r(h0, g);
     if (h0) GEOS_finish_r(h0);
     return 0;
 }
